@@ -46,7 +46,7 @@ ASSUMPTIONS = ['generators share no mutable state, so a generator is modelled as
                'component partition is re-checked by the Lean checker on every case']
 HAS_DRIVER = True
 EXTRA_MODULES = []
-FINDINGS_MODULE = None
+FINDINGS_MODULE = 'ChythonModel.Findings.C07'
 SEARCH_ALWAYS_IN_THOROUGH = True
 
 _state = {'suspects': []}
@@ -703,6 +703,91 @@ class Independent:
         return pb.order == tb.order
 
 
+def inversions_odd(seq):
+    return sum(1 for i in range(len(seq)) for j in range(i + 1, len(seq)) if seq[i] > seq[j]) % 2 == 1
+
+
+def stereo_reference_ok(p, t, f):
+    """Independent judgement of the stereo clause for ONE embedding `f` (documented meaning of the marks, own parity / flip
+    arithmetic; of the library only the target's labels and its reference orders `stereogenic_*` are read, as data):
+    True / False, or None when the case is outside what the documentation defines (a marked atom listing fewer than three
+    neighbours, a listed neighbour the reference order does not know, substituents that are not mapped, ...)."""
+    from chython.periodictable import ExtendedQuery
+    rev = {x: u for u, x in f.items()}
+    verdict = True
+    for u, a in p._atoms.items():
+        if not isinstance(a, ExtendedQuery) or a.stereo is None:
+            continue
+        x = f[u]
+        label = t._atoms[x].stereo
+        if label is None:
+            return False                                  # "stereo in query should match only stereo atom"
+        order = t.stereogenic_tetrahedrons.get(x)
+        if order is not None:
+            ref = list(order)
+            env = [f[v] for v in p._bonds[u]]
+            if len(ref) == 3:                             # hydrogen (implicit or explicit) is last in the reference order
+                hs = [y for y in t._bonds[x] if t._atoms[y].atomic_number == 1]
+                ref.append(hs[0] if hs else 'H')
+            if len(env) == 3 and all(e in ref for e in env) and len(set(env)) == 3:
+                env = env + [y for y in ref if y not in env]      # the unlisted neighbour counts as last
+            if len(env) != 4 or sorted(map(str, env)) != sorted(map(str, ref)):
+                return None
+            if len(order) == 3 and len(p._bonds[u]) == 3 and any(t._atoms[y].atomic_number == 1 for y in env if y != 'H'):
+                return None                               # an explicit hydrogen listed among three: not defined by the library
+            odd = inversions_odd([ref.index(e) for e in env])
+            if (label != odd) != a.stereo:
+                verdict = False
+            continue
+        ends = t.stereogenic_allenes.get(x)
+        if ends is None:
+            return None
+        r = ends_verdict(p, t, f, rev, t._stereo_allenes_terminals[x], ends, label, a.stereo)
+        if r is None:
+            return None
+        verdict = verdict and r
+    for u, v, b in bond_list(p):
+        if getattr(b, 'stereo', None) is None:
+            continue
+        x, y = f[u], f[v]
+        tb = t._bonds[x].get(y)
+        if tb is None:
+            return None
+        if tb.stereo is None:
+            return False                                  # "chiral query bond matches only chiral molecule bond"
+        term = t._stereo_cis_trans_terminals.get(x)
+        if term is None or term not in t.stereogenic_cis_trans:
+            return None
+        r = ends_verdict(p, t, f, rev, term, t.stereogenic_cis_trans[term], tb.stereo, b.stereo)
+        if r is None:
+            return None
+        verdict = verdict and r
+    return verdict
+
+
+def ends_verdict(p, t, f, rev, term, ends, label, mark):
+    """double bond / allene: the mark is read relative to the FIRST listed substituent (in the query's neighbour order) of each
+    terminal query atom; the label relative to the reference pair (slots 0 and 1); exchanging the substituent at exactly one end
+    inverts"""
+    a, b = term
+    n0, n1, n2, n3 = ends
+    if a not in rev or b not in rev:
+        return None
+    first_end = {n0: 0}
+    if n2 is not None:
+        first_end[n2] = 2
+    last_end = {n1: 1}
+    if n3 is not None:
+        last_end[n3] = 3
+    both = {**first_end, **last_end}
+    sa = next((v for v in p._bonds[rev[a]] if f[v] in both), None)
+    sb = next((v for v in p._bonds[rev[b]] if f[v] in both), None)
+    if sa is None or sb is None or f[sa] not in first_end or f[sb] not in last_end:
+        return None
+    flip = (first_end[f[sa]] >= 2) != (last_end[f[sb]] >= 2)
+    return (label != flip) == mark
+
+
 def fresh_copy(t):
     """the same atoms and bonds as a new object whose labels are computed from scratch (an edited object may carry stale ones)"""
     try:
@@ -795,12 +880,19 @@ def property_check(p, t, scope, ops=True, accelerated=False):
     Returns (fails, signature, what)."""
     eff_scope = scope
     try:
-        ref = canon(reference_embeddings(p, t, eff_scope))
+        ref_all = reference_embeddings(p, t, eff_scope)
     except OverflowError:
         return False, None, 'reference budget exceeded'
+    stereo_q = is_query(p) and has_query_stereo(p)
+    if stereo_q:
+        verdicts = [stereo_reference_ok(p, t, m) for m in ref_all]
+        if any(v is None for v in verdicts):
+            return False, None, 'a stereo mark whose meaning the documentation does not define for this embedding (outside the oracle)'
+        ref_all = [m for m, v in zip(ref_all, verdicts) if v]
+    ref = canon(ref_all)
     if len(p._atoms) == 0:
         return False, None, 'empty pattern (outside the domain)'
-    if len(t._atoms) <= 7 and len(p._atoms) <= 5:
+    if len(t._atoms) <= 7 and len(p._atoms) <= 5 and not stereo_q:
         lit = canon(all_injections_embeddings(p, t, eff_scope))
         if lit != ref:
             return False, None, 'reference enumerators disagree (oracle problem, not reported)'
@@ -821,7 +913,7 @@ def property_check(p, t, scope, ops=True, accelerated=False):
             return True, 'C07/scope/empty-scope-ignored', (f'empty searching_scope: {len(got)} mappings returned, '
                                                            f'{len(ref)} embeddings lie inside the scope')
         kind = 'spurious' if extra else ('duplicate' if dup and not missing else 'missing')
-        where = 'accelerated' if accelerated else 'scope' if scope is not None else 'unfiltered'
+        where = 'accelerated' if accelerated else 'stereo' if stereo_q else 'scope' if scope is not None else 'unfiltered'
         return True, f'C07/{where}/{kind}-mapping', (f'real={len(got)} reference={len(ref)} spurious={extra[:2]} '
                                                       f'missing={missing[:2]} duplicates={dup}')
     st, gotf = outcome(lambda: canon(real_mappings(p, t, True, scope, accelerated)))
@@ -829,6 +921,11 @@ def property_check(p, t, scope, ops=True, accelerated=False):
         return True, f'C07/raises/{st}', f'get_mapping(automorphism_filter=True) raised {st}'
     want_sets = sorted({tuple(sorted(dict(m).values())) for m in ref})
     got_sets = sorted(tuple(sorted(dict(m).values())) for m in gotf)
+    if stereo_q and all(m in ref for m in gotf) and len(set(got_sets)) == len(got_sets) and set(got_sets) < set(want_sets):
+        return True, 'C07/stereo/automorphism-filter-before-stereo-test', (
+            f'automorphism_filter=True returns {len(got_sets)} mappings; the embeddings that pass the stereo test cover '
+            f'{len(want_sets)} image sets (automorphism_filter=False returns {len(ref)} mappings): an image set is lost when the '
+            f'first representative the search yields fails the stereo test')
     if got_sets != want_sets or any(m not in ref for m in gotf):
         return True, 'C07/filter/not-one-per-image-set', (f'filtered: {len(got_sets)} mappings over {len(set(got_sets))} image sets, '
                                                           f'reference has {len(want_sets)} image sets')
@@ -2092,10 +2189,6 @@ def search(ctx):
         nonlocal tried
         tried += 1
         try:
-            if 'pattern' in inp:
-                p = make_pattern(inp['pattern'])
-                if is_query(p) and has_query_stereo(p):
-                    return
             fails, sig, what = check_input(inp)
         except Exception as e:  # an input the builders cannot rebuild is not evidence either way
             ctx.dist('search-skipped:' + type(e).__name__)
